@@ -40,6 +40,10 @@ type c05Case struct {
 	Rendered map[string]string `json:"rendered,omitempty"` // file name -> text (authoritative when present)
 	Options  world.Options     `json:"options,omitempty"`
 	CLIArgs  []string          `json:"cli_args,omitempty"`
+	// EntryRoots (yangentry mode): when set, only these sources are named to
+	// yangentry.Parse; what they import or include is fetched from the search
+	// path while the set is processed.
+	EntryRoots []string `json:"entry_roots,omitempty"`
 	// CLIBare: sources whose file is called <module>.yang are given to the
 	// command by module name (it then looks the file up itself).
 	CLIBare bool `json:"cli_bare,omitempty"`
@@ -150,7 +154,7 @@ func (c05Driver) Info() core.Info {
 
 func (c05Driver) Generate(t *tape.Tape, tier string) core.Case {
 	c := &c05Case{}
-	switch t.Weighted(16, 2, 1) {
+	switch t.Weighted(16, 2, 2) {
 	case 0:
 		c.Mode = "lib"
 	case 1:
@@ -169,7 +173,13 @@ func (c05Driver) Generate(t *tape.Tape, tier string) core.Case {
 	c.Injected = g.Injected
 	// order trap: an older revision of one module is part of the set as well
 	rt := t.Sub("revisions")
-	if name := addOlderRevisionInc(rt, g.S, 6, false, rt.Sub("includes").Chance(1, 4), rt.Sub("keep-augments").Chance(1, 2)); name != "" {
+	den := 6
+	if c.Mode == "yangentry" {
+		// what is fetched from the search path, and for whom, matters most
+		// when a module exists there in two revisions
+		den = 2
+	}
+	if name := addOlderRevisionInc(rt, g.S, den, false, rt.Sub("includes").Chance(1, 4), rt.Sub("keep-augments").Chance(1, 2)); name != "" {
 		c.Injected = append(c.Injected, "two-revisions-of-"+name)
 	}
 	// order trap: two different modules declare the same namespace (every
@@ -219,6 +229,16 @@ func (c05Driver) Generate(t *tape.Tape, tier string) core.Case {
 	k := 5
 	if tier == "thorough" {
 		k = 10
+	}
+	if et := t.Sub("entry-roots"); c.Mode == "yangentry" && et.Chance(1, 2) {
+		for _, n := range names {
+			if et.Chance(1, 2) {
+				c.EntryRoots = append(c.EntryRoots, n)
+			}
+		}
+		if len(c.EntryRoots) == 0 {
+			c.EntryRoots = []string{names[et.Intn(len(names))]}
+		}
 	}
 	if c.Mode == "cli" {
 		k = 3
@@ -391,6 +411,15 @@ func (c05Driver) runYangentry(c *c05Case, texts map[string]string, names []strin
 			defer func() { zzsim.Active = false }()
 			var in []string
 			for _, n := range order {
+				if len(c.EntryRoots) > 0 {
+					named := false
+					for _, r := range c.EntryRoots {
+						named = named || r == n
+					}
+					if !named {
+						continue
+					}
+				}
 				in = append(in, strings.TrimSuffix(n, ".yang"))
 			}
 			entries, errs := yangentry.Parse(in, []string{"lib"})
